@@ -1,12 +1,14 @@
 """C09 — noisy and mixed-state simulation implements the channel semantics (DESIGN 5/C09)."""
+import itertools
 import math
+import random
 import numpy as np
 from .. import env, coq, runner, gates, tables, opsem, mcircuits
 from ..scripted import enumerate_runs, BranchExplosion
 
 LEVEL = 'proof'
 META = dict(
-    text='Coq theorems: every library channel (bit/phase flip, (asymmetric) depolarize, amplitude, generalized amplitude and phase damping, reset) is trace preserving for all parameter values (sum K^dagger K = I as ring identities in the amplitude parameters), the Kraus evolution preserves the trace of every 2x2 matrix, measurement branches carry the whole mass, the density-operator reference semantics is the ensemble reference semantics averaged (for every operation list and register shape: the final density operator is the weighted sum of the outer products of the pure branches), and the constant-noise-model moment transformer adds exactly one noise moment per non-virtual moment. On every run: Cirq\'s Kraus/mixture/superoperator/Choi descriptions are compared with the documented Kraus operators evaluated in Coq; the density-matrix simulator\'s final state (all measurement branches enumerated) and the state-vector simulator\'s trajectories (all Kraus branches enumerated through a scripted seed, weighted by the probability Cirq assigned) are compared with the reference ensemble; noise-model simulation is compared with the model of the circuit the noise model produces.',
+    text='Coq theorems: every library channel (bit/phase flip, (asymmetric) depolarize, amplitude, generalized amplitude and phase damping, reset) is trace preserving for all parameter values (sum K^dagger K = I as ring identities in the amplitude parameters), the Kraus evolution preserves the trace of every 2x2 matrix, measurement branches carry the whole mass, the density-operator reference semantics is the ensemble reference semantics averaged (for every operation list and register shape: the final density operator is the weighted sum of the outer products of the pure branches), and the constant-noise-model moment transformer adds exactly one noise moment per non-virtual moment. On every run: Cirq\'s Kraus/mixture/superoperator/Choi descriptions are compared with the documented Kraus operators evaluated in Coq; the density-matrix simulator\'s final state (all measurement branches enumerated) and the state-vector simulator\'s trajectories (all Kraus branches enumerated through a scripted seed, weighted by the probability Cirq assigned) are compared with the reference ensemble; noise-model simulation is compared with the model of the circuit the noise model produces; multi-qubit channels without qubit-exchange symmetry are applied to every ordered choice of target qubits (ascending, descending and merged axes) in both simulators; cirq.kraus(moment), Moment._superoperator_ and Circuit._superoperator_ applied to a generic pure state are compared with the reference semantics of the operations for every storage order of the moment\'s operations.',
     note='Trusted: Coq kernel; docstring transcription of the Kraus operators (Gates/Channels.v); float instance (tolerance 2e-6); the scripted seed standing for numpy.random; numpy for the Choi/superoperator inversion oracles and the eigenvalue (positivity) check. Thermal/device-derived noise models are not generated.',
     technique='Rocq/Coq proof of trace preservation for the channel library + exact branch enumeration of both simulators compared with the reference ensemble by vm_compute',
 )
@@ -28,7 +30,9 @@ def run(ctx):
     cirq = env.import_cirq()
     ctx.rule = ('library channels at special and generic parameters (descriptions vs documented Kraus operators); random circuits (1-3 wires) '
                 'mixing unitaries, every library channel, resets and measurements: DensityMatrixSimulator and Simulator trajectories with every '
-                'branch enumerated; constant noise models; non-trivial = >=1 channel with >=2 branches of non-zero weight; distinct by circuit text')
+                'branch enumerated; constant noise models; a fixed grid of asymmetric 2-/3-qubit Kraus and mixture channels on every ordered target tuple x qubit order x split option x '
+                'entangled/product preparation; a fixed grid of moments in every storage order (Kraus / superoperator descriptions of moments and circuits on a generic state); '
+                'non-trivial = >=1 channel with >=2 branches of non-zero weight; distinct by circuit text')
     ctx.assumptions += ['float tolerance 2e-6', 'scripted seed stands for numpy.random']
     ctx.set_obligations(coq.compile_props('C09'))
     n = 1 if ctx.tier == 'quick' else 8
@@ -38,6 +42,8 @@ def run(ctx):
     channel_pair_grid(ctx, cirq, checks)
     noise_stream(ctx, cirq, checks, 40 * n)
     mux_noise_stream(ctx, cirq, checks, 40 * n)
+    kraus_axes_grid(ctx, cirq, checks, n)
+    moment_description_grid(ctx, cirq, checks, n)
     evaluate(ctx, checks)
 
 
@@ -157,6 +163,7 @@ def circuit_stream(ctx, cirq, checks, n):
         model = f'(dexec_rho FOps {shape} {mops} {gates.fvec(np.eye(dim)[k0])})'
         desc = str(c).replace('\n', ' | ')[:400]
         has_channel = any(not cirq.has_unitary(op) and not cirq.is_measurement(op) for op in c.all_operations())
+        superoperator_case(ctx, cirq, checks, c, random.Random(ctx.seed * 100003 + i), 'random-circuit', desc)
         for entry in ('DensityMatrixSimulator.simulate', 'Simulator.simulate[trajectories]'):
             split = rng.random() < 0.7
             try:
@@ -359,6 +366,249 @@ def mux_noise_stream(ctx, cirq, checks, n):
                        f'fcl_close {TOL} (dexec_rho FOps {gates.nlist([2] * k)} {mops} {gates.fvec(np.eye(dim)[0])}) {gates.fvec(rho.reshape(-1))}',
                        f'cirq.final_density_matrix(noise={noise_gate!r}) differs from the averaged state of the circuit the noise model produces on {desc}',
                        dict(signature=f'noise-mux:{form}', circuit=repr(c), noise=repr(noise_gate))))
+
+
+def flat(x):
+    """repr on one line (violation texts are read line by line)."""
+    return ' '.join(repr(x).split())
+
+
+def generic_state(rng, dim):
+    """A normalised state vector with generic complex amplitudes (two different linear maps on operators differ on the outer product
+    of a generic vector, because those outer products span the operator space)."""
+    v = np.array([complex(rng.gauss(0, 1), rng.gauss(0, 1)) for _ in range(dim)])
+    return v / np.linalg.norm(v)
+
+
+def random_kraus_set(rng, n_ops, dim):
+    """A trace-preserving Kraus set without any symmetry: the blocks of a random isometry."""
+    a = np.array([[complex(rng.gauss(0, 1), rng.gauss(0, 1)) for _ in range(dim)] for _ in range(n_ops * dim)])
+    q, _ = np.linalg.qr(a)
+    return [q[i * dim:(i + 1) * dim, :] for i in range(n_ops)]
+
+
+def multi_qubit_channels(cirq, rng):
+    """Channels on 2 and 3 qubits that are NOT symmetric under exchanging their qubits, one per application strategy:
+    Kraus only (dense random, product of two different single-qubit channels, keyed) and mixture."""
+    g, h = rng.choice([0.3, 0.45, 0.6]), rng.choice([0.2, 0.35])
+    p = rng.choice([0.25, 0.4])
+    damp, pdamp = cirq.kraus(cirq.amplitude_damp(g)), cirq.kraus(cirq.phase_damp(h))
+    Y, S = np.array([[0, -1j], [1j, 0]]), np.diag([1, 1j])
+    two = [('random-kraus', cirq.KrausChannel(random_kraus_set(rng, 3, 4))),
+           ('amplitude_damp(x)identity', cirq.KrausChannel([np.kron(k, np.eye(2)) for k in damp])),
+           ('amplitude_damp(x)phase_damp[keyed]', cirq.KrausChannel([np.kron(a, b) for a in damp for b in pdamp], key='k')),
+           ('mixture Y(x)S', cirq.MixedUnitaryChannel([(1 - p, np.eye(4)), (p, np.kron(Y, S))]))]
+    three = [('random-kraus', cirq.KrausChannel(random_kraus_set(rng, 2, 8))),
+             ('amplitude_damp(x)identity(x)phase_damp', cirq.KrausChannel([np.kron(np.kron(a, np.eye(2)), b) for a in damp for b in pdamp]))]
+    return two, three
+
+
+def kraus_axes_grid(ctx, cirq, checks, reps):
+    """Multi-qubit channels without qubit-exchange symmetry applied to EVERY ordered choice of target qubits of a 2- and 3-qubit
+    register, under the default and a permuted qubit order, from entangled and from product preparations, with and without
+    split_untangled_states (so the channel's axes in the simulation state are ascending, descending and produced by a product-state
+    merge): Simulator trajectories (every Kraus branch enumerated, weighted by the probability Cirq assigned) and
+    DensityMatrixSimulator against the reference ensemble.  The grid is the same for every seed; only the parameters are random."""
+    rng = ctx.rng
+    k = 0
+    for rep in range(reps):
+        two, three = multi_qubit_channels(cirq, rng)
+        for n in (2, 3):
+            qs = cirq.LineQubit.range(n)
+            perms = list(itertools.permutations(range(n)))
+            targets = [(t, two) for t in itertools.permutations(range(n), 2)] + ([(t, three) for t in perms] if n == 3 else [])
+            for tgt, pool in targets:
+                for cname, ch in pool:
+                    for split in (False, True):
+                        for which_order in (0, 1):
+                            k += 1
+                            order = perms[0] if which_order == 0 else perms[1 + k % (len(perms) - 1)]
+                            entangled = k % 3 != 0
+                            c = cirq.Circuit(cirq.ry(round(rng.uniform(0.3, 2.8), 3)).on(q) for q in qs)
+                            c.append(cirq.rx(round(rng.uniform(0.3, 2.8), 3)).on(qs[-1]))
+                            if entangled:
+                                c.append(cirq.CNOT(qs[i], qs[i + 1]) for i in range(n - 1))
+                                c.append(cirq.rz(round(rng.uniform(0.2, 1.5), 3)).on(q) for q in qs)
+                                c.append(cirq.ry(round(rng.uniform(0.3, 2.8), 3)).on(qs[0]))
+                            c.append(ch.on(*[qs[t] for t in tgt]))
+                            axes_grid_case(ctx, cirq, checks, c, [qs[o] for o in order], split,
+                                           f'{cname} on qubits {tgt} after {"an entangled" if entangled else "a product"} preparation, qubit_order={order}, '
+                                           f'split_untangled_states={split}', f'{len(tgt)}q:{cname}')
+
+
+def axes_grid_case(ctx, cirq, checks, c, order, split, label, sigtail):
+    try:
+        mops, meas, _ = opsem.circuit_to_mops(cirq, c, order)
+    except opsem.Unsupported:
+        return
+    dim = 2 ** len(order)
+    model = f'(dexec_rho FOps {gates.nlist([2] * len(order))} {mops} {gates.fvec(np.eye(dim)[0])})'
+    for entry in ('Simulator.simulate[trajectories]', 'DensityMatrixSimulator.simulate'):
+        stream = 'axes-grid:' + entry
+        desc = f'{label}: {flat(c)}'
+        try:
+            if entry.startswith('Density'):
+                br = enumerate_runs(lambda s: np.array(cirq.DensityMatrixSimulator(seed=s, split_untangled_states=split, dtype=np.complex128)
+                                                       .simulate(c, qubit_order=order).final_density_matrix))
+                rho = sum(p * st for p, st, _ in br)
+                norms = [abs(np.trace(st)) for _, st, _ in br]
+            else:
+                br = enumerate_runs(lambda s: np.array(cirq.Simulator(seed=s, split_untangled_states=split, dtype=np.complex128)
+                                                       .simulate(c, qubit_order=order).final_state_vector))
+                rho = sum(p * np.outer(st, st.conj()) for p, st, _ in br)
+                norms = [float(np.linalg.norm(st)) for _, st, _ in br]
+        except BranchExplosion:
+            ctx.count(stream + ':skipped-too-many-branches', [desc, entry], False)
+            continue
+        except Exception as e:
+            import traceback
+            ctx.violation(f'{stream}:raises:{type(e).__name__}', f'{entry} raised {type(e).__name__}: {e} on {desc}',
+                          dict(kind='axes-grid', entry=entry, circuit=repr(c), error=traceback.format_exc()[-1200:]))
+            continue
+        total = sum(p for p, _, _ in br)
+        ctx.count(stream, [desc, entry], len(br) >= 2, sample=dict(case=label, entry=entry, branches=len(br), total=total))
+        if abs(total - 1) > 1e-6 or not np.all(np.isfinite(rho)) or not valid_density(rho) or not np.allclose(norms, 1.0, atol=1e-6):
+            ctx.violation(f'{stream}:invalid-density:{sigtail}',
+                          f'{entry}: branch probabilities sum to {total}, branch norms {np.round(norms, 6).tolist()}: not a valid ensemble / density matrix on {desc}',
+                          dict(kind='axes-grid', entry=entry, circuit=repr(c), qubit_order=repr(order), split=split))
+            continue
+        checks.append((stream, f'fcl_close {TOL} {model} {gates.fvec(rho.reshape(-1))}',
+                       f'{entry}: sum over branches of probability x branch state differs from sum_k K rho K^dagger (reference semantics) for {desc}',
+                       dict(signature=f'{stream}:{sigtail}', entry=entry, circuit=repr(c), qubit_order=repr(order), split=split)))
+
+
+def superoperator_case(ctx, cirq, checks, c, rng, form, desc):
+    """Circuit._superoperator_ (qubits in sorted order) applied to the outer product of a generic state = the reference semantics of the
+    circuit's operations in order.  Measurements enter through their averaged (dephasing) channel, which is what dexec_rho computes."""
+    qs = sorted(c.all_qubits())
+    if not qs or any(q.dimension != 2 for q in qs):
+        return
+    try:
+        if not c._has_superoperator_():
+            return
+        mops, meas, _ = opsem.circuit_to_mops(cirq, c, qs)
+    except opsem.Unsupported:
+        return
+    d = 2 ** len(qs)
+    psi = generic_state(rng, d)
+    rho0 = np.outer(psi, psi.conj())
+    try:
+        sup = np.asarray(c._superoperator_())
+        got = (sup @ rho0.reshape(-1)).reshape(d, d)
+    except Exception as e:
+        ctx.violation(f'circuit-superoperator:raises:{type(e).__name__}', f'Circuit._superoperator_ raised {type(e).__name__}: {e} on {desc}',
+                      dict(kind='circuit-superoperator', circuit=repr(c)))
+        return
+    has_channel = any(not cirq.has_unitary(op) for op in c.all_operations())
+    ctx.count('description:Circuit._superoperator_', [desc, form], has_channel, sample=dict(circuit=desc, form=form))
+    checks.append(('description:Circuit._superoperator_',
+                   f'fcl_close {TOL} (dexec_rho FOps {gates.nlist([2] * len(qs))} {mops} {gates.fvec(psi)}) {gates.fvec(got.reshape(-1))}',
+                   f'Circuit._superoperator_ (qubits sorted) applied to a generic pure state differs from applying each operation\'s channel in order on {desc}',
+                   dict(signature=f'circuit-superoperator:{form}', circuit=repr(c), psi=[[z.real, z.imag] for z in psi])))
+
+
+def moment_case(ctx, cirq, checks, m, rng, form):
+    """cirq.kraus(moment) and Moment._superoperator_ (both on sorted(moment.qubits)) describe the channel obtained by applying the
+    moment's operations (each through its own Kraus operators, on its own qubits) one after the other."""
+    qs = sorted(m.qubits)
+    desc = flat(m)
+    if not cirq.has_kraus(m):
+        ctx.violation(f'moment-description:no-kraus:{form}', f'cirq.has_kraus is False for a moment all of whose operations have Kraus operators: {desc}',
+                      dict(kind='moment-description', moment=desc))
+        return
+    try:
+        mops, meas, _ = opsem.circuit_to_mops(cirq, cirq.Circuit(m), qs)
+    except opsem.Unsupported:
+        return
+    d = 2 ** len(qs)
+    psi = generic_state(rng, d)
+    rho0 = np.outer(psi, psi.conj())
+    model = f'(dexec_rho FOps {gates.nlist([2] * len(qs))} {mops} {gates.fvec(psi)})'
+    try:
+        ks = [np.asarray(k) for k in cirq.kraus(m)]
+        sup = np.asarray(m._superoperator_())
+    except Exception as e:
+        ctx.violation(f'moment-description:raises:{type(e).__name__}', f'cirq.kraus / _superoperator_ raised {type(e).__name__}: {e} on {desc}',
+                      dict(kind='moment-description', moment=desc))
+        return
+    if any(k.shape != (d, d) for k in ks) or sup.shape != (d * d, d * d) or not np.allclose(sum(k.conj().T @ k for k in ks), np.eye(d), atol=1e-8):
+        ctx.violation(f'moment-description:not-trace-preserving:{form}', f'cirq.kraus(moment) is not a trace-preserving set of {d}x{d} operators for {desc}',
+                      dict(kind='moment-description', moment=desc))
+        return
+    nontrivial = sum(1 for op in m if not cirq.has_unitary(op)) >= 1 and len(m) >= 2
+    for entry, got in (('cirq.kraus(moment)', apply_kraus(ks, rho0)), ('Moment._superoperator_', (sup @ rho0.reshape(-1)).reshape(d, d))):
+        ctx.count('description:' + entry, [desc, entry], nontrivial, sample=dict(moment=desc, form=form, entry=entry))
+        checks.append(('description:' + entry, f'fcl_close {TOL} {model} {gates.fvec(got.reshape(-1))}',
+                       f'{entry} (qubits sorted) applied to a generic pure state differs from applying the channels of the moment\'s operations for {desc}',
+                       dict(signature=f'moment-description:{entry}:{form}', moment=desc, psi=[[z.real, z.imag] for z in psi])))
+
+
+def one_qubit_pool(cirq, rng):
+    p, g = round(rng.uniform(0.05, 0.45), 3), round(rng.uniform(0.1, 0.9), 3)
+    return [cirq.bit_flip(p), cirq.phase_flip(p), cirq.depolarize(p), cirq.amplitude_damp(g), cirq.phase_damp(g),
+            cirq.generalized_amplitude_damp(p, g), cirq.asymmetric_depolarize(0.1, 0.2, 0.05), cirq.ResetChannel(),
+            cirq.KrausChannel([np.array([[1, 0], [0, math.sqrt(1 - g)]]), np.array([[0, math.sqrt(g)], [0, 0]])]),
+            cirq.MixedUnitaryChannel([(0.25, np.eye(2)), (0.75, np.array([[0, 1], [1, 0]], dtype=complex))]),
+            cirq.H, cirq.X ** round(rng.uniform(0.1, 0.9), 3), cirq.ry(round(rng.uniform(0.3, 2.8), 3)), cirq.S]
+
+
+def moment_description_grid(ctx, cirq, checks, reps):
+    """Moments whose operations are STORED in every order relative to the order of their qubits (all permutations of 2 and 3
+    single-qubit operations with pairwise different factors; a single-qubit operation next to a two-qubit gate/channel on every
+    arrangement of three qubits, in both storage orders; grid and named qubits; moments with a measurement), and circuits in which a
+    lone operation sits on each qubit of a wider register (Circuit._superoperator_ pads such moments with identities) or whose moments
+    are stored out of qubit order.  Fixed for every seed; parameters random."""
+    rng = ctx.rng
+    for rep in range(reps):
+        pool = one_qubit_pool(cirq, rng)
+        two, _ = multi_qubit_channels(cirq, rng)
+        two_ops = [cirq.CNOT, cirq.CZ ** round(rng.uniform(0.1, 0.9), 3), cirq.ISWAP ** 0.5] + [ch for _, ch in two if not cirq.is_measurement(ch)]
+        lq = cirq.LineQubit.range(3)
+        # (1) every storage order of k single-qubit operations with pairwise different factors, at least one a channel
+        for k in (2, 3):
+            for draw in range(2 if k == 2 else 3):
+                while True:
+                    gs = rng.sample(pool, k)
+                    if any(not cirq.has_unitary(g) for g in gs):
+                        break
+                for perm in itertools.permutations(range(k)):
+                    moment_case(ctx, cirq, checks, cirq.Moment(gs[i].on(lq[i]) for i in perm), rng, f'{k}x1q')
+        # (2) a single-qubit operation and a two-qubit operation: every arrangement of the three qubits, both storage orders
+        j = 0
+        for a, b, c in itertools.permutations(range(3)):
+            for first_single in (True, False):
+                j += 1
+                one = rng.choice([g for g in pool if not cirq.has_unitary(g)]).on(lq[a])
+                twoq = two_ops[j % len(two_ops)].on(lq[b], lq[c])
+                moment_case(ctx, cirq, checks, cirq.Moment([one, twoq] if first_single else [twoq, one]), rng, '1q+2q')
+        # (3) qubits whose sorted order is not their creation / storage order
+        gq = [cirq.GridQubit(1, 0), cirq.GridQubit(0, 1), cirq.GridQubit(0, 0)]
+        nq = [cirq.NamedQubit('c'), cirq.NamedQubit('a'), cirq.NamedQubit('b')]
+        for qset in (gq, nq):
+            gs = rng.sample([g for g in pool if not cirq.has_unitary(g)], 3)
+            moment_case(ctx, cirq, checks, cirq.Moment(g.on(q) for g, q in zip(gs, qset)), rng, 'other-qubit-types')
+        # (4) a measurement (its Kraus operators are the projectors) stored before / after a channel on an earlier qubit
+        for perm in ((0, 1), (1, 0), (2, 0), (1, 2)):
+            ops = {perm[0]: cirq.measure(lq[perm[0]], key='m'), perm[1]: rng.choice([g for g in pool if not cirq.has_unitary(g)]).on(lq[perm[1]])}
+            moment_case(ctx, cirq, checks, cirq.Moment(ops[perm[0]], ops[perm[1]]), rng, 'measure+1q')
+        # (5) circuits: a lone operation on each qubit of a wider register; moments stored out of qubit order
+        for n in (2, 3):
+            qs = lq[:n]
+            for w in range(n):
+                ch = rng.choice([g for g in pool if not cirq.has_unitary(g)])
+                c = cirq.Circuit(cirq.Moment(cirq.ry(round(rng.uniform(0.3, 2.8), 3)).on(q) for q in qs),
+                                 cirq.Moment(cirq.CNOT(qs[i], qs[i + 1]) for i in range(0, n - 1, 2)),
+                                 cirq.Moment(ch.on(qs[w])),
+                                 cirq.Moment(rng.choice(pool).on(qs[(w + 1) % n])),
+                                 cirq.Moment(cirq.CNOT(qs[-1], qs[0])),
+                                 cirq.Moment(rng.choice(pool).on(qs[w])))
+                superoperator_case(ctx, cirq, checks, c, rng, 'lone-operation', flat(c))
+            for perm in list(itertools.permutations(range(n)))[1:]:
+                gs = rng.sample([g for g in pool if not cirq.has_unitary(g)], n)
+                c = cirq.Circuit(cirq.Moment(cirq.ry(round(rng.uniform(0.3, 2.8), 3)).on(q) for q in reversed(qs)),
+                                 cirq.Moment(cirq.CNOT(qs[i + 1], qs[i]) for i in range(0, n - 1, 2)),
+                                 cirq.Moment(gs[i].on(qs[i]) for i in perm))
+                superoperator_case(ctx, cirq, checks, c, rng, 'stored-out-of-order', flat(c))
 
 
 def evaluate(ctx, checks):
